@@ -29,6 +29,7 @@ import (
 	"reduction.dev/reduction/proto/workerpb"
 	"reduction.dev/reduction/rpc"
 	"reduction.dev/reduction/storage/locations"
+	"reduction.dev/reduction/util/vhook"
 	"reduction.dev/reduction/workers/operator"
 	"reduction.dev/reduction/workers/sourcerunner"
 	"verif/lib"
@@ -229,7 +230,49 @@ type StartCkRec struct {
 	Dead bool
 }
 
+// Every worker is its own operating-system process in a deployment. The repository counts live Table objects per
+// stored file "within this process"; workers of one test process must not protect each other's table files that
+// way, so every operator's file system is wrapped with the identity of its worker (hook operator.filesystem).
+var (
+	procMu sync.Mutex
+	procOf = map[string]*int{} // operator id -> simulated process
+)
+
+var partHook atomic.Pointer[func(name string, arg any)]
+
+// SetHook installs a part's own vhook handler next to the harness's (nil removes it). cluster.New re-installs the
+// dispatcher, so a second cluster of the same case keeps the part's handler.
+func SetHook(h func(name string, arg any)) {
+	if h == nil {
+		partHook.Store(nil)
+	} else {
+		partHook.Store(&h)
+	}
+	vhook.Set(dispatchHook)
+}
+
+func dispatchHook(name string, arg any) {
+	hookFS(name, arg)
+	if h := partHook.Load(); h != nil {
+		(*h)(name, arg)
+	}
+}
+
+func hookFS(name string, arg any) {
+	if name != "operator.filesystem" {
+		return
+	}
+	a := arg.(*operator.VerifFileSystem)
+	procMu.Lock()
+	proc := procOf[a.OperatorID]
+	procMu.Unlock()
+	if proc != nil {
+		a.FS = lib.ProcFS{Inner: a.FS, Proc: proc}
+	}
+}
+
 func New(cfg Config) *Cluster {
+	vhook.Set(dispatchHook)
 	c := &Cluster{Cfg: cfg, byOp: map[string]*Worker{}, bySR: map[string]*Worker{}, Store: ophar.NewShadowStore(), errc: make(chan error, 100), keyedMax: map[string]int64{}}
 	c.Loc = &RecLocation{StorageLocation: locations.NewLocalDirectory(filepath.Join(cfg.Dir, "job"))}
 	go func() {
@@ -314,6 +357,9 @@ func (c *Cluster) AddWorker() *Worker {
 	w.SR.Logger = ophar.QuietLog
 	w.Op = operator.NewOperator(operator.NewOperatorParams{ID: w.OpID, Host: "host-" + name, Job: ja, UserHandler: kh, Clock: w.opClk, EventBatching: c.Cfg.Batch, NeighborOperatorFactory: opFactory})
 	w.Op.Logger = ophar.QuietLog
+	procMu.Lock()
+	procOf[w.OpID] = new(int)
+	procMu.Unlock()
 	c.mu.Lock()
 	c.workers = append(c.workers, w)
 	c.byOp[w.OpID] = w
